@@ -9,6 +9,8 @@ Decided:
   C07.count   I/O adaptors (Counter, CrcReader, CrcWriter, LimitedReader) account the bytes actually transferred
   C07.endian  LittleEndian / BigEndian map to to_le_bytes / to_be_bytes and from_le_bytes / from_be_bytes;
               byte width k <-> i{8k} converters in Frame::to_buf / fill_from_buf
+  C07.width   the byte width of a sample is ceil(bits/8) in Frame::bytes_per_sample and the three writer constructors;
+              Frame::bytes_len = bytes_per_sample() x samples.len() (the byte reader's staging size)
   C07.cast    narrowing `as` casts in decode / audio / byteorder / crc are shown lossless or audited (castlib)
   (C07.eof also requires FlacChannelReader::consume to accumulate: consumed = consumed + amt)
 Not decided: exactly-once delivery under all call sequences (value-level); equality of byte and sample outputs.
@@ -55,9 +57,63 @@ def bytes_to_le_rules(F, rep, P):
                   "byte order conversion of %s input does not %s: samples of some widths are scrambled before hashing / encoding" % (end.rsplit("::", 1)[1], "leave the bytes alone" if want == "noop" else "reverse all bytes of each sample"))
 
 
+def _is_ceil8(b, sl):
+    """the slice computes ceil(x / 8): x.div_ceil(8), (x + 7) / 8 or (x + 7) >> 3"""
+    dc = [c for c in sl["calls"] if re.search(r"<impl u\d+>::div_ceil$", callee_name(c))]
+    ar = {o.replace("WithOverflow", "").replace("Unchecked", "") for o in sl["ops"]} - {"Eq", "Ne", "Lt", "Le", "Gt", "Ge"}
+    if len(dc) == 1 and op_int(dc[0]["a"][1]) == 8 and not ar:
+        return True
+    if not dc and ar == {"Add", "Div"} and {7, 8} <= sl["consts"]:
+        return True
+    if not dc and ar == {"Add", "Shr"} and {7, 3} <= sl["consts"]:
+        return True
+    return False
+
+
+def sample_width_rules(F, rep, P):
+    """the byte width of a sample is ceil(bits / 8) wherever it is derived, and a frame's byte length is width x samples"""
+    R = P + ".width"
+    b = anchor(F, rep, R, "audio::Frame::bytes_per_sample")
+    if b is not None:
+        rets = [st_ for bl in b.blocks for st_ in bl["s"] if st_["d"]["l"] == 0 and not st_["d"]["p"]]
+        good = len(rets) == 1
+        if good:
+            sl = backward_slice(b, rets[0]["rv"].get("o") or rets[0]["rv"].get("a") or {})
+            good = _is_ceil8(b, sl) and "bits_per_sample" in sl["fields"] and not (sl["fields"] - {"bits_per_sample"})
+        rep.check(R, "Frame::bytes_per_sample == ceil(bits_per_sample / 8)", good, loc_of(b), "",
+                  "the sample width in bytes is not bits_per_sample.div_ceil(8): depths that are not a multiple of 8 (12, 20 ..) get the wrong width in the byte readers / MD5")
+    b = anchor(F, rep, R, "audio::Frame::bytes_len")
+    if b is not None:
+        muls = [st_ for bl in b.blocks for st_ in bl["s"] if st_["rv"]["r"] == "bin" and st_["rv"]["op"].startswith("Mul")]
+        others = [st_ for bl in b.blocks for st_ in bl["s"] if st_["rv"]["r"] == "bin" and not st_["rv"]["op"].startswith("Mul")]
+        good = len(muls) == 1 and not others
+        if good:
+            srcs = [sorted(strip_generics(callee_name(c)).rsplit("::", 1)[-1] for c in backward_slice(b, muls[0]["rv"][k])["calls"]) for k in ("a", "b")]
+            good = sorted(srcs) == [["bytes_per_sample"], ["len"]] and "samples" in (backward_slice(b, muls[0]["rv"]["a"])["fields"] | backward_slice(b, muls[0]["rv"]["b"])["fields"])
+        rep.check(R, "Frame::bytes_len == bytes_per_sample() x samples.len()", good, loc_of(b), "",
+                  "the byte length of a decoded frame is not width x sample count: the byte reader's staging buffer is too short (or long) for depths that are not whole bytes")
+    n = 0
+    for path in ("encode::FlacByteWriter::new", "encode::FlacSampleWriter::new", "encode::FlacChannelWriter::new"):
+        nb = anchor(F, rep, R, path)
+        if nb is None:
+            continue
+        adt = "encode::" + path.split("::")[1]
+        fl = [f["name"] for f in F.adts[adt]["variants"][0]["fields"]]
+        if "bytes_per_sample" not in fl:
+            rep.bad(R, "anchor:%s.bytes_per_sample" % adt, loc_of(nb), "field not found")
+            continue
+        for bi, s_ in agg_sites(nb, adt):
+            sl = backward_slice(nb, s_["rv"]["ops"][fl.index("bytes_per_sample")])
+            n += 1
+            rep.check(R, "%s: bytes_per_sample = ceil(bits_per_sample / 8)" % path, _is_ceil8(nb, sl), nb.loc(s_["sp"]), "",
+                      "the writer's sample width is not bits_per_sample.div_ceil(8)")
+    rep.floor(R, "writer constructors deriving the sample width", n, 3)
+
+
 def run(ctx, rep):
     F = ctx.facts()
     ok = OkImplies(F, ctx.cg())
+    sample_width_rules(F, rep, "C07")
     n = 0
     for path, kind in FRONTS:
         b = _get(F, rep, "C07.refill", path)
